@@ -149,6 +149,9 @@ func (p Proxy) ServeHTTP(w http.ResponseWriter, r *http.Request) (int, error) {
 	if requiresBuffering {
 		body, err := newBufferedBody(outreq.Body)
 		if err != nil {
+			if errors.Is(err, httpserver.ErrMaxBytesExceeded) {
+				return http.StatusRequestEntityTooLarge, err
+			}
 			return http.StatusBadRequest, errors.New("failed to read downstream request body")
 		}
 		if body != nil {
@@ -271,7 +274,8 @@ func (p Proxy) ServeHTTP(w http.ResponseWriter, r *http.Request) (int, error) {
 			return 0, nil
 		}
 
-		if backendErr == httpserver.ErrMaxBytesExceeded {
+		// the transport wraps errors from reading the request body
+		if errors.Is(backendErr, httpserver.ErrMaxBytesExceeded) {
 			return http.StatusRequestEntityTooLarge, backendErr
 		}
 
